@@ -358,8 +358,11 @@ def replay(prop, path):
     print('oracle verdict on the real code:', r.oracle_fail or 'holds')
     print('model/implementation:', r.mismatch or 'agree')
     print('detail:', json.dumps(r.detail, default=str)[:3000])
-    if r.bad() and known.match(prop.id, case, r) is None:
+    k = known.match(prop.id, case, r) if r.bad() else None
+    if r.bad() and k is None:
         print('VIOLATION property=%s replay=%s%s' % (prop.id, os.path.relpath(path, VERIF),
                                                        '' if r.oracle_fail else ' no-failing-input-found'))
         return 1
+    if k is not None:
+        print('KNOWN-FINDING: property=%s %s' % (prop.id, k))
     return 0
